@@ -87,6 +87,8 @@ class MColl:
     items: list
     depth: int  # length of the context stack when it was created
     origin: Any = None
+    run_depth: int = 0  # number of loops being executed when it was created
+    filled_in: set = field(default_factory=set)  # loops (executions) that added elements
 
 
 @dataclass
@@ -148,6 +150,8 @@ class Evaluator:
         self.trys: list = []  # (tryid, types)
         self.problems: list[str] = []  # unsupported constructs met (taint the run)
         self.reads: list = []  # (cid, active loop ids)
+        self.running: list[int] = []  # executions of loop bodies in progress (one id per execution, also for re-entered generators)
+        self.try_ids: dict = {}
         self.cut_loops: set[int] = set()
         self.opaque_classes = opaque_classes or set()  # fq class names whose instances are opaque fluent builders
         self.fluent_roots = fluent_roots or set()
@@ -177,17 +181,18 @@ class Evaluator:
         return ("opaque", why, ())
 
     def new_coll(self, kind: str, origin=None) -> MColl:
-        m = MColl(self.fresh(), kind, [], len(self.ctx), origin)
+        m = MColl(self.fresh(), kind, [], len(self.ctx), origin, len(self.running))
         self.heap_colls[m.cid] = m
         return m
 
     def active_loops(self) -> set[int]:
-        return {e[3] for e in self.ctx if e[0] == "for"}
+        return set(self.running)
 
     def add_item(self, m: MColl, elt, splat: bool = False) -> None:
         d = min(m.depth, len(self.ctx))
         binders = tuple(self.ctx[d:])
-        loops = {b[3] for b in binders if b[0] == "for"}
+        loops = set(self.running[min(m.run_depth, len(self.running)):])
+        m.filled_in |= loops
         for cid, act in self.reads:
             if cid == m.cid and act & loops:
                 self.problem("a collection is read inside the loop that fills it (loop-carried state)", soft=True)
@@ -205,7 +210,7 @@ class Evaluator:
             act = self.active_loops()
             if eager:
                 self.reads.append((m.cid, frozenset(act)))
-            carried = any(b[0] == "for" and b[3] in act for it in m.items if it[0] == "gen" for b in it[2])
+            carried = bool(m.filled_in & act)
             snap = ("coll", m.kind, tuple(self.snapshot(it, eager) for it in m.items))
             if carried and eager:
                 self.problem("a collection is read inside the loop that fills it (loop-carried state)", soft=True)
@@ -602,7 +607,7 @@ class Evaluator:
                 return self.reduce(o.fields[name])
             m = self.repo.lookup_method(o.cls, name)
             if m is not None:
-                if m.is_property:
+                if m.is_property or "cached_property" in m.decorators:
                     return self.call_function(m, [v], {}, node)
                 if m.is_staticmethod:
                     return ("func", m.fq)
@@ -629,6 +634,18 @@ class Evaluator:
         if t == "module":
             mod = self.repo.modules[v[1]]
             return self.global_name(mod, name)
+        if t == "super":
+            start = self.repo.classes[v[1]]
+            me = v[2]
+            mro = self.repo.mro(self.heap_objs[me[1]].cls) if me[0] == "obj" else self.repo.mro(start)
+            after = mro[mro.index(start) + 1:] if start in mro else []
+            for c in after:
+                if name in c.methods:
+                    m = c.methods[name]
+                    return ("func", m.fq) if m.is_staticmethod else ("bound", me, m.fq)
+            if name in ("__init__", "__post_init__", "__init_subclass__"):
+                return ("builtin", "<noop>")
+            return self.problem(f"super().{name} not found", node)
         if t == "ext":
             return ("ext", v[1] + "." + name)
         if t == "ite":
@@ -651,6 +668,14 @@ class Evaluator:
     def index(self, v, i):
         if v[0] == "tuple" and i[0] == "const" and isinstance(i[1], int) and -len(v[1]) <= i[1] < len(v[1]):
             return v[1][i[1]]
+        if v[0] == "mcoll" and self.heap_colls[v[1]].kind == "dict":
+            items = self.heap_colls[v[1]].items
+            if items and all(it[0] == "elem" and it[1][0] == "pair" and it[1][1][0] == "const" for it in items):
+                table = {it[1][1][1]: it[1][2] for it in items}
+                if i[0] == "const" and i[1] in table:
+                    return table[i[1]]
+                if set(table) == {True, False} and i[0] != "const":
+                    return ("ite", self.truth(i), table[True], table[False])
         if v[0] == "ite":
             return ("ite", v[1], self.index(v[2], i), self.index(v[3], i))
         return ("index", self.snapshot(v), self.snapshot(i))
@@ -708,32 +733,65 @@ class Evaluator:
 
     # iteration -----------------------------------------------------------
     def iterate(self, it, target, fr, body, node, stmts=None) -> None:
-        """Runs `body()` once per (symbolic) element of `it` with `target` bound."""
+        """Runs `body()` once per (symbolic) element of `it` with `target` bound.
+
+        A collection that was built by this evaluator is iterated *through its generators*: the binders (loops, conditions) under
+        which an element was added are entered again and the target is bound to the element itself - so objects, closures and tuples
+        put into a list keep their identity for the consumer (loop fusion).  Anything else binds a fresh variable over the iterable."""
         snap = self.snapshot(it)
         core = snap
         while core[0] == "wrap" and core[1] in WRAPPERS:
             core = core[2]
-        if core[0] == "coll" and all(x[0] == "elem" for x in core[2]) and len(core[2]) <= 6 and core[1] != "dict":
-            for x in core[2]:
-                self.bind(target, x[1], fr)
-                body()
+        if core[0] == "tuple":
+            core = ("coll", "list", tuple(("elem", x) for x in core[1]))
+        if core[0] == "coll" and core[1] != "dict":
+            raw = it
+            while raw[0] == "wrap" and raw[1] in WRAPPERS:
+                raw = raw[2]
+            items = self.heap_colls[raw[1]].items if raw[0] == "mcoll" else core[2]
+            for item in list(items):
+                self.iterate_item(item, target, fr, body, node)
             return
-        if core[0] == "tuple" and len(core[1]) <= 6:
-            for x in core[1]:
-                self.bind(target, x, fr)
-                body()
-            return
+        self.iterate_var(snap, target, fr, body)
+
+    def iterate_var(self, snap, target, fr, body) -> None:
         var = ("var", self.fresh())
         loopid = var[1]
         n = len(self.ctx)
         self.ctx.append(("for", var, snap, loopid))
         self.bind(target, var, fr)
+        self.run_iteration(fr, body, n)
+
+    def run_iteration(self, fr, body, n) -> None:
         fr.loop_bases.append(len(self.ctx))
+        self.running.append(self.fresh())
         try:
             body()
         finally:
+            self.running.pop()
             fr.loop_bases.pop()
             del self.ctx[n:]
+
+    def iterate_item(self, item, target, fr, body, node) -> None:
+        n = len(self.ctx)
+        if item[0] == "elem":
+            self.bind(target, item[1], fr)
+            if fr.loop_bases or True:
+                self.run_iteration(fr, body, n)
+            return
+        if item[0] == "splat":
+            self.iterate(item[1], target, fr, body, node)
+            return
+        _g, elt, binders = item
+        self.ctx.extend(binders)
+        if isinstance(elt, tuple) and elt and elt[0] == "splatted":
+            try:
+                self.iterate(elt[1], target, fr, body, node)
+            finally:
+                del self.ctx[n:]
+            return
+        self.bind(target, elt, fr)
+        self.run_iteration(fr, body, n)
 
     def bind(self, target, v, fr) -> None:
         if isinstance(target, ast.Name):
@@ -825,6 +883,10 @@ class Evaluator:
             return self.call_method(f[1], f[2], args, kwargs, node)
         if t == "partial":
             return self.call(f[1], [*f[2], *args], {**dict(f[3]), **kwargs}, node)
+        if t == "obj":
+            m = self.repo.lookup_method(self.heap_objs[f[1]].cls, "__call__")
+            if m is not None:
+                return self.call_function(m, [f, *args], kwargs, node)
         return self.problem(f"call of a {t} value", node)
 
     def bind_params(self, a: ast.arguments, args, kwargs, env: Env, module, node) -> bool:
@@ -1174,10 +1236,14 @@ class Evaluator:
             return ("flatten", s)
         if name in ("AssertionError", "Exception", "ValueError", "TypeError", "KeyError", "RuntimeError", "BaseException", "NotImplementedError"):
             return ("exc", name, tuple(self.snapshot(x) for x in a))
-        if name in ("print",):
+        if name in ("print", "<noop>"):
             return NONE
-        if name == "super":
-            return self.problem("super()", node)
+        if name == "super" and not a:
+            fr = self.frames[-1]
+            me = fr.env.lookup(fr.fi.param_names[0]) if fr.fi is not None and fr.fi.param_names else None
+            if fr.cls is not None and me is not None:
+                return ("super", fr.cls.fq, me)
+            return self.problem("super() outside a method", node)
         return ("opaque", f"builtin {name}", tuple(self.snapshot(x) for x in a))
 
     def call_ext(self, dotted, args, kwargs, node):
@@ -1415,7 +1481,7 @@ class Evaluator:
         return False
 
     def s_Try(self, s, fr):
-        tid = self.fresh()
+        tid = self.try_ids.setdefault(id(s), len(self.try_ids) + 1)
         types = []
         for h in s.handlers:
             if h.type is None:
